@@ -266,10 +266,12 @@ Definition step_gen (fixed : bool) (s : st) (l : label) : option st :=
     then Some (if ok then set_shut s Starting (shut s) else s)
     else None
   | LServeInit n =>
-    match svc s, n with
-    | Starting, S _ =>
+    (* serve() initialises once per successful CAS: the queue is still nil from the previous close()
+       (or from the zero value) *)
+    match svc s, wq s, n with
+    | Starting, None, S _ =>
       Some (St Starting (Some []) ∅ ∅ (nextw s) (replicate n WStart) (prods s) (pubs s) true 0 (shut s) 0 (panicked s))
-    | _, _ => None
+    | _, _, _ => None
     end
   | LServeStarted =>
     match svc s, wq s with
